@@ -146,6 +146,12 @@ def run(repo, rep):
                         rep.check(all(c.startswith('ctx+1:') for c in ctxs), 'C17.b', lab + ':nested-context', pca.where,
                                   'each argument printed one level deeper', 'arguments are printed with contexts %s' % sorted(ctxs), nontrivial=True)
     rep.floor('C17.b', n, 30)
+    # the arguments of a call are printed under the context derived by nested_call(): it keeps every setting (context model)
+    from . import ctxmodel
+    nb = ctxmodel.report(repo, rep, 'C17.b', lambda k: k.startswith('nested_call:') or k.startswith('use_multiline_strategy:'),
+                         'the arguments of a call-style printer would be printed under other settings than the value itself')
+    nb += ctxmodel.construction_sites(repo, rep, 'C17.b', 'arguments are printed under a context derived from the caller\'s')
+    rep.floor('C17.b:context', nb, 10)
 
     # ---------------------------------------------------------------- C17.c
     n = 0
